@@ -477,7 +477,8 @@ def rule_r14(repo, rule='C09.R14'):
 
         def on_call(self, text, callee, args, kwargs, node, frame):
             it = self
-            if text == 'Decoder':
+            from sa.patheval import ClassRef as _CR0
+            if text == 'Decoder' or (isinstance(callee, _CR0) and callee.name == 'Decoder'):
                 def process(interp, a, kw, node, frame):
                     it.event('decode', 'single')
                     return it.message(0, it.wire_option(kw))
@@ -485,7 +486,12 @@ def rule_r14(repo, rule='C09.R14'):
             if text == 'generate_bufr_message':
                 it.event('decode', 'stream')
                 return LazyIter([it.message(k, it.wire_option(kwargs)) for k in (0, 1)], lambda k: None, 'scanner')
-            if text in renderers:
+            from sa.patheval import ClassRef as _CR
+            rcls = text if text in renderers else (callee.name if isinstance(callee, _CR) and callee.name in renderers else None)
+            if rcls is not None:
+                # (a renderer class, however it is named at the call: directly, or taken from a table of formats)
+                text = rcls
+
                 def render(interp, a, kw, node, frame, cls=text):
                     m = a[0] if a else None
                     if isinstance(m, Stub) and hasattr(m, 'state'):
